@@ -125,6 +125,22 @@ def check(ck):
                "response constructor has no rpcid and is not re-dumped with the request id: the reply carries id null",
                q.loc(fi, n))
     ck.floor("C03.1", 12)
+    fdis = prog.func(SRV, DISP + "._dispatch")
+    fsd = prog.func(SRV, DISP + "._marshaled_single_dispatch")
+
+    def catches_base(fn, call_pred):
+        for t in ast.walk(fn.node):
+            if isinstance(t, ast.Try) and any(isinstance(c, ast.Call) and call_pred(c) for st_ in t.body for c in ast.walk(st_)):
+                if any(h.type is None or dump(h.type) == "BaseException" for h in t.handlers):
+                    return True
+        return False
+    inner = catches_base(fdis, lambda c: isinstance(c.func, ast.Name) and c.func.id == "func")
+    outer = catches_base(fsd, lambda c: call_name(c) in ("_dispatch", "dispatch_method"))
+    ck.require(inner or outer, "C03.1", "%s: a failing callable is answered with the request id" % SRV,
+               "a handler of _dispatch / _marshaled_single_dispatch catches every exception of the callable",
+               "neither _dispatch nor _marshaled_single_dispatch catches a non-Exception BaseException raised by the callable (SystemExit, "
+               "KeyboardInterrupt, GeneratorExit): it reaches the HTTP catch-all, which answers with id null - and a batch loses all its other "
+               "responses", q.loc(fdis, fdis.node))
 
     # ---- C03.2 id verbatim -------------------------------------------------------
     fd = prog.func("jsonrpc", "dump")
